@@ -26,6 +26,8 @@ def jobs(tier):
     for dm,qv in ([(2,3)] if q else [(1,5),(2,3),(2,5)]):
         J.append(Job('besterror-d%d-q%d'%(dm,qv),'C05/besterror.c',defs=['-DDM=%d'%dm,'-DQVN=%d'%qv],unwind=max(qv**dm,8)+2,witnesses=['nearest used entry searched','direct hit'],
             functions=['local_book_besterror'],models=[],bounds='lattice book dim %d x %d values, any used/unused pattern, vector components -12..12, delta 1..3'%(dm,qv),weight=2))
+    J.append(Job('analysis-pkt','C05/analysis_pkt.c',defs=['-DOGGPACK_MODEL_CAP=32','-DMAXBITS=%d'%(24 if q else 48)],unwind=(24 if q else 48)+2,unwindset=[('harness',r'i<PACKETBLOBS',16),('vorbis_analysis',None,16)],native_link=['-logg'],
+        witnesses=['managed refused','partial last byte'],models=M,functions=['vorbis_analysis'],bounds='mapping writes 0..%d bits'%(24 if q else 48),weight=2))
     # shared harnesses: window-flag agreement (C04 enc-step), managed truncation (C14 br-step), comment header layout (C16 cm-pack)
     c04=[j for j in _other('C04').jobs(tier) if j.name.startswith('enc-step')][:2 if q else 99]
     c14=[j for j in _other('C14').jobs(tier)][:1 if q else 4]
